@@ -44,6 +44,7 @@ class Profile:
         self.share = rng.choice(b.get("share", [0.05, 0.15, 0.3, 0.3, 0.5, 0.7]))
         self.trip_prob = rng.choice(b.get("trip_prob", [0.0, 0.1, 0.2, 0.35]))
         self.group_prob = rng.choice(b.get("group_prob", [0.0, 0.0, 0.1, 0.25]))
+        self.dup_prob = rng.choice(b.get("dup_prob", [0.0, 0.1, 0.3]))
         self.arm_prob = rng.choice(b.get("arm_prob", [0.1, 0.25, 0.25, 0.5]))
         self.miss_prob = rng.choice(b.get("miss_prob", [0.2, 0.4, 0.6]))
         self.n_points = rng.randint(*b.get("n_points", (2, 5)))
@@ -158,7 +159,15 @@ def gen_world(rng, pr):
             op = rng.choice(pr.ops)
             if op in lib.NARY:
                 ar = rng.choice([0, 1, 2, 2, 2, 3, 3, 4])
-                cand = ({"op": op}, [pick_kid() for _ in range(ar)])
+                ks = [pick_kid() for _ in range(ar)]
+                if ks and rng.random() < pr.dup_prob:
+                    # repeated terms / factors (x + y + x + y): like-term handling is order-sensitive code
+                    for k in rng.sample(ks, rng.randint(1, len(ks))):
+                        if nodes[k]["op"] == "Variable" and rng.random() < 0.5:
+                            k = add({"op": "Variable", "name": nodes[k]["name"]})   # equal but distinct object
+                        ks.append(k)
+                    rng.shuffle(ks)
+                cand = ({"op": op}, ks)
             elif op in lib.BINARY:
                 cand = ({"op": op}, [pick_kid(), pick_kid()])
             elif op in lib.UNARY:
